@@ -175,6 +175,7 @@ fn queries(b: &DigitString) -> String {
 fn run_ds(ops: &str) -> String {
     let mut b = DigitString::new();
     let mut outs: Vec<String> = Vec::new();
+    outs.push(format!("INIT|{}|{}", show_state(&mut b), queries(&b)));
     for o in ops.split(' ').filter(|s| !s.is_empty()) {
         let parts: Vec<&str> = o.split(':').collect();
         let r: Option<Result<(), Error>> = match parts.as_slice() {
@@ -400,6 +401,20 @@ pub fn exec(langs: &Langs, line: &str) -> String {
             .unwrap_or("no-lang".into()),
             ["scan", lc, thr, toks] => with_lang!(langs, lc, l, {
                 run_scan(l, parse_thr(thr), &parse_tokens(toks))
+            })
+            .unwrap_or("no-lang".into()),
+            ["occ", lc, thr, text] => with_lang!(langs, lc, l, {
+                // the pipeline of replace_numbers_in_text, stopped before the replacement
+                let t = unescape(text);
+                let mut tokens: Vec<BasicToken> = tokenize(&t).collect();
+                l.basic_annotate(&mut tokens);
+                let occs = find_numbers(tokens.iter(), l, parse_thr(thr));
+                let os: Vec<String> = occs.iter().map(show_occ).collect();
+                let ts: Vec<String> = tokens
+                    .iter()
+                    .map(|bt| format!("{}:{}", escape(&bt.text), bs(bt.nan)))
+                    .collect();
+                format!("{}|{}", os.join(","), ts.join(","))
             })
             .unwrap_or("no-lang".into()),
             ["tok", text] => {
